@@ -173,17 +173,34 @@ impl Re {
     }
     /// the same expression through the library's public combinators
     pub fn to_nfa(&self) -> NFA<()> {
+        self.to_nfa_over(&LETTERS[0])
+    }
+    /// ... with the letters a, b, c standing for the given byte values
+    pub fn to_nfa_over(&self, letters: &[u8; 3]) -> NFA<()> {
         match self {
             Re::Nothing => NFA::nothing(),
             Re::Eps => NFA::empty(),
             Re::Byte(b) => {
-                let b = *b;
+                let b = letter(*b, letters);
                 NFA::predicate(move |x| x == b)
             }
-            Re::Seq(a, b) => NFA::sequence([a.to_nfa(), b.to_nfa()]),
-            Re::Alt(a, b) => NFA::choice([a.to_nfa(), b.to_nfa()]),
-            Re::Star(a) => a.to_nfa().many(),
+            Re::Seq(a, b) => NFA::sequence([a.to_nfa_over(letters), b.to_nfa_over(letters)]),
+            Re::Alt(a, b) => NFA::choice([a.to_nfa_over(letters), b.to_nfa_over(letters)]),
+            Re::Star(a) => a.to_nfa_over(letters).many(),
         }
+    }
+}
+
+/// What the letters a, b, c of the pattern pool stand for: themselves, and the extreme byte values (the
+/// tokeniser's alphabet is all 256 bytes; the first and the last value are where a loop over it ends).
+pub const LETTERS: [[u8; 3]; 2] = [[b'a', b'b', b'c'], [0xFF, 0x00, 0x80]];
+
+pub fn letter(b: u8, letters: &[u8; 3]) -> u8 {
+    match b {
+        b'a' => letters[0],
+        b'b' => letters[1],
+        b'c' => letters[2],
+        other => other,
     }
 }
 
@@ -300,8 +317,15 @@ fn run_tokenizer(tok: &Tokenizer, w: &[u8], parts: &[usize]) -> (Vec<Result<usiz
 
 /// check one (pattern set, input) under all partitions; returns (kind, detail)
 fn check_tokenizer_case(pats: &[Re], tok: &Tokenizer, w: &[u8], parts_all: &[Vec<usize>]) -> Vec<(String, String)> {
+    check_tokenizer_case_over(pats, tok, w, parts_all, &LETTERS[0])
+}
+
+/// `w` is over a, b, c; the tokeniser (built with `to_nfa_over(letters)`) is fed the bytes the letters stand for
+fn check_tokenizer_case_over(pats: &[Re], tok: &Tokenizer, w: &[u8], parts_all: &[Vec<usize>], letters: &[u8; 3]) -> Vec<(String, String)> {
     let mut problems = vec![];
     let (items, pending) = reference_patterns(pats, w);
+    let mapped: Vec<u8> = w.iter().map(|b| letter(*b, letters)).collect();
+    let w = &mapped[..];
     let expect: Vec<Result<usize, Vec<u8>>> = items
         .iter()
         .map(|it| match it {
@@ -900,6 +924,33 @@ pub fn worker(ctx: &Ctx, mut wc: WorkerCtx, _extra: &[String]) {
                     }
                 });
             }
+            // the same pattern set with the letters standing for the extreme byte values 0xFF, 0x00, 0x80
+            // (whole input and byte by byte: the partitions are a dimension of the sweep above)
+            let extreme = &LETTERS[1];
+            if let Ok(tok2) = catch(|| Tokenizer::new(pats.iter().map(|r| r.to_nfa_over(extreme)))) {
+                for first in 0..sigma.len() {
+                    for_strings(&sigma, first, p.tok_len, &mut |s| {
+                        case += 1;
+                        if case <= resume {
+                            return;
+                        }
+                        let setb: Vec<u8> = set.iter().map(|i| *i as u8).collect();
+                        wc.begin_case(case, &descriptor(2, Which::Event, s, &setb));
+                        cases += 1;
+                        let two = [vec![s.len()], vec![1; s.len()]];
+                        runs += 2;
+                        for (kind, detail) in check_tokenizer_case_over(&pats, &tok2, s, &two, extreme) {
+                            let names: Vec<&str> = set.iter().map(|i| pool[*i].0).collect();
+                            local.add(
+                                &mut wc,
+                                format!("tokenizer:{}", kind),
+                                format!("patterns {:?} with a, b, c standing for the bytes {:02x?}, input {:?}: {}", names, extreme, String::from_utf8_lossy(s), detail),
+                                json!({"kind": "tokenizer", "patterns": set, "pattern_names": names, "w": String::from_utf8_lossy(s), "letters": extreme}),
+                            );
+                        }
+                    });
+                }
+            }
             wc.count("T_sets", 1);
             wc.count("T_cases", cases);
             wc.count("T_runs", runs);
@@ -1091,7 +1142,11 @@ pub fn replay(w: &Value) -> Result<(bool, String), String> {
                 .collect();
             let pats: Vec<Re> = set.iter().map(|i| pool[*i].1.clone()).collect();
             let s = w["w"].as_str().unwrap_or("").as_bytes().to_vec();
-            let tok = Tokenizer::new(pats.iter().map(|r| r.to_nfa()));
+            let letters: [u8; 3] = match w["letters"].as_array() {
+                Some(a) if a.len() == 3 => [a[0].as_u64().unwrap_or(0) as u8, a[1].as_u64().unwrap_or(0) as u8, a[2].as_u64().unwrap_or(0) as u8],
+                _ => LETTERS[0],
+            };
+            let tok = Tokenizer::new(pats.iter().map(|r| r.to_nfa_over(&letters)));
             let mut parts = all_partitions(s.len());
             let mut e = vec![0usize];
             for _ in 0..s.len() {
@@ -1099,7 +1154,7 @@ pub fn replay(w: &Value) -> Result<(bool, String), String> {
                 e.push(0);
             }
             parts.push(e);
-            let problems = check_tokenizer_case(&pats, &tok, &s, &parts);
+            let problems = check_tokenizer_case_over(&pats, &tok, &s, &parts, &letters);
             let (items, pending) = reference_patterns(&pats, &s);
             let mut detail = format!(
                 "patterns {:?} input {:?}\nreference: {:?} pending from {}\n",
